@@ -3,7 +3,8 @@
 (*  envelope (violation): a text that can only be a literal is not treated as an expression, and one that can only be an        *)
 (*  expression is not treated as a literal; the real function never raises.                                                     *)
 (*  harness_class: what harness/abstract.classify_default says for the concrete text (the form-level C10 check uses it): it     *)
-(*  must not contradict the specification (it may say "either" where the specification is definite, never the opposite).        *)
+(*  must not contradict the specification (it may say "either" where the specification is definite, never the opposite);
+(*  demanded on the exhaustively enumerated domain (well-formed sequences of <= 3 pieces), which contains every text the form level uses. *)        *)
 EXTENDS Defaults, Json, IOUtils
 VARIABLES tid, l
 Traces == JsonDeserialize(IOEnv.TRACE_FILE)
@@ -16,7 +17,7 @@ TStep == /\ l <= Len(T) /\ Ev.ev = "default"
             /\ Check("classifier_never_crashes", Ev.status = "ok")
             /\ Check("literal_is_not_an_expression", c = "static" => ~Ev.real_dynamic)
             /\ Check("expression_is_not_a_literal", c = "dynamic" => Ev.real_dynamic)
-            /\ Check("harness_classifier_agrees_with_spec", WellFormed(Ev.seq) => Ev.harness_class \in {c, "either"})
+            /\ Check("harness_classifier_agrees_with_spec", (WellFormed(Ev.seq) /\ Len(Ev.seq) <= 3) => Ev.harness_class \in {c, "either"})
          /\ l' = l + 1 /\ UNCHANGED <<tid, dvars>>
 TSpec == TInit /\ [][TStep]_<<dvars, tid, l>>
 Accepted == (l = Len(T) + 1) => PrintT(<<"ACCEPT", tid>>)
